@@ -44,7 +44,11 @@ impl ConjecturedSecurity {
             query_security += options.grinding_factor();
         }
 
-        Self(cmp::min(cmp::min(field_security, query_security) - 1, collision_resistance))
+        // the field size may come from an untrusted proof context and can be zero bits
+        Self(cmp::min(
+            cmp::min(field_security, query_security).saturating_sub(1),
+            collision_resistance,
+        ))
     }
 
     /// Returns the conjectured security level (in bits).
